@@ -108,10 +108,53 @@ fn rebuild(comp: &str, alpha: &[Input], access: &[usize]) -> Box<dyn Machine> {
     m
 }
 
+/// probe sequences (alphabet indices) whose results identify a state behaviourally, per alphabet
+fn probes(alpha_name: &str, alpha: &[Input]) -> Option<Vec<Vec<usize>>> {
+    match alpha_name {
+        // the frame stage reveals its state only at the 11th bit: every continuation of 11 bits
+        "bits" => Some((0..2048usize).map(|v| (0..11).map(|i| (v >> i) & 1).collect()).collect()),
+        // scancode decoders: every pair of bytes
+        "bytes" => Some((0..65536usize).map(|v| vec![v & 255, v >> 8]).collect()),
+        // event stage: every single input (the recording layout shows modifiers, mode and layout)
+        "events" | "kbevents" | "anyevents" => Some((0..alpha.len()).map(|i| vec![i]).collect()),
+        _ => None,
+    }
+}
+
+fn signature(comp: &str, alpha: &[Input], access: &[usize], pr: &[Vec<usize>]) -> String {
+    use std::hash::{Hash, Hasher};
+    let mut h = std::collections::hash_map::DefaultHasher::new();
+    for p in pr {
+        let mut m = rebuild(comp, alpha, access);
+        for &i in p {
+            match apply_caught(&mut m, &alpha[i]) {
+                Ok(s) => {
+                    s.out.to_string().hash(&mut h);
+                    s.query.to_string().hash(&mut h);
+                }
+                Err(msg) => {
+                    ("panic", msg).hash(&mut h);
+                    break;
+                }
+            }
+        }
+        0xFFu8.hash(&mut h);
+    }
+    format!("behaviour:{:016x}", h.finish())
+}
+
 /// Writes NDJSON, one record per state (1-based index `i`, BFS order):
-/// {i, id, access:[alphabet indices, 1-based], obs, out:[..], q:[..], post:[state index or 0]}
+/// {i, id, access:[alphabet indices, 1-based], obs, out:[..], q:[..], post:[state index or 0], cls}
 /// post = 0 means the call panicked (no post-state). States beyond `cap` are listed with
 /// `expanded:false` and empty out/post so an unbounded object still yields a finite file.
+///
+/// State identity is the object's Debug rendering. If that does not close within the cap - the
+/// object has a field that keeps changing without influencing behaviour, e.g. a statistics counter
+/// - the extraction is repeated with BEHAVIOURAL identity: two states are the same if every probe
+/// sequence of the alphabet's probe set gives the same results. Every recorded transition is still
+/// a real run of the real object (from the state's recorded access sequence), so a difference
+/// found on such a graph is a real difference; what can be lost is a distinction deeper than the
+/// probes, which the table replays cover independently of any notion of state identity.
 pub fn extract(comp_arg: &str, alpha_name: &str, cap: usize, w: &mut dyn Write, alpha_out: Option<&mut dyn Write>) {
     // "<component>:lean" drops the long id / query / stage strings from the records
     let (comp, lean) = match comp_arg.strip_suffix(":lean") {
@@ -123,17 +166,58 @@ pub fn extract(comp_arg: &str, alpha_name: &str, cap: usize, w: &mut dyn Write, 
         let a: Vec<Value> = alpha.iter().map(|i| i.to_json()).collect();
         writeln!(aw, "{}", Value::Array(a)).unwrap();
     }
+    let (mut recs, closed) = explore(comp, lean, &alpha, cap, None);
+    let mut mode = "rendering";
+    if !closed {
+        if let Some(pr) = probes(alpha_name, &alpha) {
+            let (r2, _c2) = explore(comp, lean, &alpha, cap, Some(&pr));
+            recs = r2;
+            mode = "behaviour";
+        }
+    }
+    let cls = moore_classes(&recs);
+    for (i, mut rec) in recs.into_iter().enumerate() {
+        rec["cls"] = json!(cls[i]);
+        rec["idmode"] = json!(mode);
+        writeln!(w, "{}", rec).unwrap();
+    }
+}
+
+fn explore(comp: &str, lean: bool, alpha: &[Input], cap: usize, pr: Option<&Vec<Vec<usize>>>) -> (Vec<Value>, bool) {
+    // identity of the state reached by `access` (rendering, or behavioural signature cached per rendering)
+    let mut sig_cache: HashMap<String, String> = HashMap::new();
+    let mut ident = |m: &Box<dyn Machine>, access: &[usize]| -> String {
+        match pr {
+            None => m.id(),
+            Some(p) => {
+                let r = m.id();
+                if let Some(s) = sig_cache.get(&r) {
+                    return s.clone();
+                }
+                let s = signature(comp, alpha, access, p);
+                if sig_cache.len() < 200_000 {
+                    sig_cache.insert(r, s.clone());
+                }
+                s
+            }
+        }
+    };
     let m0 = make(comp);
+    let id0 = ident(&m0, &[]);
     let mut ids: HashMap<String, usize> = HashMap::new();
     let mut states: Vec<(String, Vec<usize>)> = Vec::new();
-    ids.insert(m0.id(), 0);
-    states.push((m0.id(), Vec::new()));
+    ids.insert(id0.clone(), 0);
+    states.push((id0, Vec::new()));
     let mut recs: Vec<Value> = Vec::new();
     let mut next = 0usize;
+    // in rendering mode give up early once the cap is clearly exceeded (the behavioural pass follows)
     while next < states.len() {
+        if pr.is_none() && states.len() > cap + alpha.len() + 1 && probes_exist_hint(alpha) {
+            return (recs, false);
+        }
         let (id, access) = states[next].clone();
         let expanded = next < cap;
-        let base = rebuild(comp, &alpha, &access);
+        let base = rebuild(comp, alpha, &access);
         let obs = base.obs();
         let stage = base.stage_ids();
         let mut outs = Vec::with_capacity(alpha.len());
@@ -141,19 +225,19 @@ pub fn extract(comp_arg: &str, alpha_name: &str, cap: usize, w: &mut dyn Write, 
         let mut posts = Vec::with_capacity(alpha.len());
         if expanded {
             for (ai, inp) in alpha.iter().enumerate() {
-                let mut m = rebuild(comp, &alpha, &access);
+                let mut m = rebuild(comp, alpha, &access);
                 match apply_caught(&mut m, inp) {
                     Ok(step) => {
                         outs.push(step.out);
                         qs.push(step.query);
-                        let pid = m.id();
+                        let mut acc = access.clone();
+                        acc.push(ai);
+                        let pid = ident(&m, &acc);
                         let idx = match ids.get(&pid) {
                             Some(&i) => i,
                             None => {
                                 let i = states.len();
                                 ids.insert(pid.clone(), i);
-                                let mut acc = access.clone();
-                                acc.push(ai);
                                 states.push((pid, acc));
                                 i
                             }
@@ -181,11 +265,14 @@ pub fn extract(comp_arg: &str, alpha_name: &str, cap: usize, w: &mut dyn Write, 
         recs.push(rec);
         next += 1;
     }
-    let cls = moore_classes(&recs);
-    for (i, mut rec) in recs.into_iter().enumerate() {
-        rec["cls"] = json!(cls[i]);
-        writeln!(w, "{}", rec).unwrap();
-    }
+    let closed = states.len() <= cap;
+    (recs, closed)
+}
+
+/// only stage alphabets have probe sets; composites keep going to the cap in rendering mode
+fn probes_exist_hint(alpha: &[Input]) -> bool {
+    let n = alpha.len();
+    n == 3 || n == 256 || n >= 370
 }
 
 /// Behavioural equivalence classes of the extracted automaton (Moore partition refinement on
